@@ -4,7 +4,9 @@ package main
 // The Byzantine participant is a real backend behind a wrapper (the drun filter) that perturbs what goes in and out.
 
 import (
+	"bytes"
 	"context"
+	"crypto/sha256"
 	"fmt"
 	mrand "math/rand"
 	"strings"
@@ -33,13 +35,14 @@ func (c c05case) String() string {
 }
 
 var c05strategies = []string{"off-polynomial-share-in", "flip-share-out", "alter-commitment", "alter-reveal", "copy-honest-key", "malformed-share-truncated", "malformed-share-fewer-elements",
-	"malformed-share-garbage", "duplicate-share-changed", "duplicate-commitment-changed", "duplicate-reveal-changed", "withhold-share", "withhold-commitment", "withhold-reveal", "reveal-before-commitment", "none"}
+	"malformed-share-garbage", "duplicate-share-changed", "duplicate-commitment-changed", "duplicate-reveal-changed", "withhold-share", "withhold-commitment", "withhold-reveal", "reveal-before-commitment", "reveal-mismatching-valid-key", "commit-to-garbage-and-reveal-it", "none"}
 
 type c05result struct {
-	d        *drun
-	ok       bool
-	effected bool
-	selfOK   bool
+	d         *drun
+	ok        bool
+	effected  bool
+	selfOK    bool
+	mustAbort map[uint16]bool // honest parties that were shown a public key that does not match the commitment they hold
 }
 
 func runC05(cs c05case, rng *mrand.Rand) c05result {
@@ -48,7 +51,7 @@ func runC05(cs c05case, rng *mrand.Rand) c05result {
 		ids = append(ids, uint16(i))
 	}
 	d := newDrun(cs.Sch, ids, cs.T, rng)
-	res := c05result{d: d, selfOK: true}
+	res := c05result{d: d, selfOK: true, mustAbort: map[uint16]bool{}}
 	isVictim := map[uint16]bool{}
 	for _, v := range cs.Victims {
 		isVictim[v] = true
@@ -61,6 +64,9 @@ func runC05(cs c05case, rng *mrand.Rand) c05result {
 		}
 	}
 	captured := map[uint8][]byte{} // H's round-2 / round-3 message
+	var genuineCommit []byte
+	garbageKinds := [][]byte{[]byte("this is certainly not the encoding of a point of the group"), {}, {0x04}, bytes.Repeat([]byte{0xff}, 192), bytes.Repeat([]byte{0xa5}, 97), bytes.Repeat([]byte{0x00}, 192)}
+	garbage := garbageKinds[(cs.Which+len(garbageKinds)+1)%len(garbageKinds)]
 	var heldCommit []dmsg
 	revealSent := false
 	tweakedIn := false
@@ -70,6 +76,20 @@ func runC05(cs c05case, rng *mrand.Rand) c05result {
 			return []dmsg{m}
 		}
 		isShare, isCommit, isReveal := r == 1 && !bc, r == 2, r == 3
+		if cs.Strategy == "reveal-mismatching-valid-key" && m.from == H && isReveal && captured[3] == nil {
+			captured[3] = append([]byte{}, m.data...)
+			// the Byzantine party (whose own commitment went out unchanged) now reveals the honest party's key as its own
+			for _, to := range ids {
+				if to != cs.Byz && isVictim[to] {
+					q := dmsg{from: cs.Byz, to: to, data: captured[3], bcast: true}
+					k := [2]uint16{q.from, q.to}
+					d.q[k] = append(d.q[k], q)
+					res.effected = true
+					res.mustAbort[to] = true
+				}
+			}
+			return []dmsg{m}
+		}
 		if cs.Strategy == "copy-honest-key" && m.from == H && (isCommit || isReveal) {
 			if captured[r] == nil {
 				captured[r] = append([]byte{}, m.data...)
@@ -123,6 +143,34 @@ func runC05(cs c05case, rng *mrand.Rand) c05result {
 		case "copy-honest-key":
 			if isCommit || isReveal {
 				return nil // replaced by the copies injected above
+			}
+		case "reveal-mismatching-valid-key":
+			if isReveal && hit {
+				return nil // replaced by the honest party's key injected above
+			}
+		case "commit-to-garbage-and-reveal-it":
+			// layout assumed: tag byte + body, commitment body = SHA-256 of the reveal body; checked against the genuine pair below
+			if isCommit {
+				if genuineCommit == nil {
+					genuineCommit = append([]byte{}, m.data...)
+				}
+				if hit {
+					sum := sha256.Sum256(garbage)
+					m.data = append([]byte{m.data[0]}, sum[:]...)
+				}
+			}
+			if isReveal {
+				if genuineCommit != nil && len(genuineCommit) == 33 {
+					sum := sha256.Sum256(m.data[1:])
+					if !sameBytes(sum[:], genuineCommit[1:]) {
+						res.selfOK = false
+					}
+				} else {
+					res.selfOK = false
+				}
+				if hit && res.selfOK {
+					m.data, res.effected = append([]byte{m.data[0]}, garbage...), true
+				}
 			}
 		case "malformed-share-truncated":
 			if isShare && hit {
@@ -219,6 +267,11 @@ func c05oracle(cs c05case, r c05result, rng *mrand.Rand) (string, string) {
 			completers = append(completers, id)
 		}
 	}
+	for id := range r.mustAbort {
+		if d.errs[id] == nil {
+			return "accepted-key-that-mismatches-its-commitment", fmt.Sprintf("honest party %d completed although the public key party %d revealed to it does not match the commitment party %d had sent", id, cs.Byz, cs.Byz)
+		}
+	}
 	if who, bad := d.revealBeforeCommitments(honest); bad {
 		return "reveal-before-commitments", fmt.Sprintf("honest party %d disclosed its public key before it held the commitments of all other participants", who)
 	}
@@ -269,28 +322,33 @@ func unitC05(e common.Env, p *common.Part) {
 			if sch.MsgLen == 2 && !e.Thorough() && ni%2 == 0 {
 				continue
 			}
-			byz := uint16(1 + ni%x.n)
-			var honest []uint16
-			for i := 1; i <= x.n; i++ {
-				if uint16(i) != byz {
-					honest = append(honest, uint16(i))
+			for bz := 1; bz <= x.n; bz++ {
+				if !e.Thorough() && x.t != x.n && bz != 1+ni%x.n && bz != x.n {
+					continue // quick: every position for t=n, first/rotating and last position otherwise
 				}
-			}
-			for _, st := range c05strategies {
-				whichs := []int{-1}
-				if sch.Name == "ps" && (st == "flip-share-out" || st == "off-polynomial-share-in" || st == "duplicate-share-changed") {
-					whichs = []int{-1, 0, sch.MsgLen} // x, first y, last y (the m' slot)
-				}
-				if st == "malformed-share-fewer-elements" && sch.Name == "bls" {
-					continue
-				}
-				for _, w := range whichs {
-					vsets := [][]uint16{honest, {honest[0]}, {honest[len(honest)-1]}}
-					if st == "none" || st == "off-polynomial-share-in" || st == "copy-honest-key" {
-						vsets = vsets[:1]
+				byz := uint16(bz)
+				var honest []uint16
+				for i := 1; i <= x.n; i++ {
+					if uint16(i) != byz {
+						honest = append(honest, uint16(i))
 					}
-					for _, vs := range vsets {
-						cases = append(cases, c05case{Sch: sch, N: x.n, T: x.t, Byz: byz, Strategy: st, Victims: vs, Which: w})
+				}
+				for _, st := range c05strategies {
+					whichs := []int{-1}
+					if sch.Name == "ps" && (st == "flip-share-out" || st == "off-polynomial-share-in" || st == "duplicate-share-changed") {
+						whichs = []int{-1, 0, sch.MsgLen} // x, first y, last y (the m' slot)
+					}
+					if st == "malformed-share-fewer-elements" && sch.Name == "bls" {
+						continue
+					}
+					for _, w := range whichs {
+						vsets := [][]uint16{honest, {honest[0]}, {honest[len(honest)-1]}}
+						if st == "none" || st == "off-polynomial-share-in" || st == "copy-honest-key" || st == "commit-to-garbage-and-reveal-it" {
+							vsets = vsets[:1]
+						}
+						for _, vs := range vsets {
+							cases = append(cases, c05case{Sch: sch, N: x.n, T: x.t, Byz: byz, Strategy: st, Victims: vs, Which: w})
+						}
 					}
 				}
 			}
@@ -322,7 +380,11 @@ func unitC05(e common.Env, p *common.Part) {
 		if honestDone > 0 {
 			p.Count("honest_completions_under_attack", int64(honestDone))
 		}
-		if sig, what := c05oracle(cs, r, rng); sig != "" {
+		sig, what := c05oracle(cs, r, rng)
+		if e.Property == "C10" && sig != "panic" && sig != "hang" {
+			sig = "" // under C10 only crashes and hangs of honest parties are judged
+		}
+		if sig != "" {
 			p.Violate(sig+"/"+cs.Sch.Name+"/"+cs.Strategy, cs.String()+": "+what, map[string]interface{}{"case": cs})
 		}
 		if i%41 == 0 {
